@@ -1,6 +1,7 @@
 mod asmref;
 mod engine;
 mod execcheck;
+mod fuzz;
 mod gen;
 mod model;
 mod runner;
@@ -45,7 +46,7 @@ fn run_replay_file(def: &props::PropDef, ctx: &Ctx, path: &std::path::Path) -> R
     let v = read_json(path).ok_or_else(|| format!("cannot parse {}", path.display()))?;
     let kind = v["kind"].as_str().unwrap_or("").to_string();
     let expect = v["expect"].as_str().unwrap_or("pass").to_string();
-    let verdict = (def.replay)(ctx, &kind, &v["case"]);
+    let verdict = if kind == "fuzz" { fuzz::replay(&v["case"]) } else { (def.replay)(ctx, &kind, &v["case"]) };
     Ok((verdict, expect))
 }
 
@@ -237,6 +238,11 @@ fn check(id: &str, args: &[String]) -> i32 {
         }
         let _ = std::fs::remove_file(&out);
         let _ = std::fs::remove_file(scratch.join(format!("{tag}.w{w}.stderr")));
+    }
+
+    // 2b. coverage-guided campaign (thorough tier of the byte/text level properties)
+    if tier == Tier::Thorough && stats.violations.is_empty() {
+        fuzz::run_campaign(def.info.id, seed, &mut stats);
     }
 
     // 3. known findings hit by the search
